@@ -22,6 +22,9 @@ type Oracle struct {
 
 	stack map[string]bool
 	depth int
+
+	// Params overrides numeric keyword values by terms: key = schema pointer + "|" + keyword.
+	Params map[string]*smt.Term
 }
 
 // Result is the outcome of evaluating one schema at one instance location.
@@ -354,6 +357,10 @@ func (o *Oracle) Eval(loc *Loc, inst Inst, dyn []*Resource) Result {
 	isNum := inst.TagIs(sx.TagNumber)
 	numKw := func(kw string, f func(x, b *smt.Term) *smt.Term) {
 		if v, ok := m[kw]; ok {
+			if pt, ok := o.Params[loc.Ptr+"|"+kw]; ok {
+				need(c.Implies(isNum, f(inst.NumReal(), pt)))
+				return
+			}
 			r, ok := ratOf(v)
 			if !ok {
 				o.fail("%s: %s is not a number", loc, kw)
@@ -361,6 +368,17 @@ func (o *Oracle) Eval(loc *Loc, inst Inst, dyn []*Resource) Result {
 			}
 			need(c.Implies(isNum, f(inst.NumReal(), c.Rat(r))))
 		}
+	}
+	// intParam returns the (possibly symbolic) integer parameter of keyword kw.
+	intParam := func(kw string, v any) (*smt.Term, bool) {
+		if pt, ok := o.Params[loc.Ptr+"|"+kw]; ok {
+			return pt, true
+		}
+		n, ok := intOf(v)
+		if !ok {
+			return nil, false
+		}
+		return c.Int(n), true
 	}
 	numKw("minimum", func(x, b *smt.Term) *smt.Term { return c.Le(b, x) })
 	numKw("maximum", func(x, b *smt.Term) *smt.Term { return c.Le(x, b) })
@@ -377,15 +395,15 @@ func (o *Oracle) Eval(loc *Loc, inst Inst, dyn []*Resource) Result {
 	// strings
 	isStr := inst.TagIs(sx.TagString)
 	if v, ok := m["minLength"]; ok {
-		if n, ok := intOf(v); ok {
-			need(c.Implies(isStr, c.Le(c.Int(n), o.strRunes(inst))))
+		if n, ok := intParam("minLength", v); ok {
+			need(c.Implies(isStr, c.Le(n, o.strRunes(inst))))
 		} else {
 			o.fail("%s: minLength not an integer", loc)
 		}
 	}
 	if v, ok := m["maxLength"]; ok {
-		if n, ok := intOf(v); ok {
-			need(c.Implies(isStr, c.Le(o.strRunes(inst), c.Int(n))))
+		if n, ok := intParam("maxLength", v); ok {
+			need(c.Implies(isStr, c.Le(o.strRunes(inst), n)))
 		} else {
 			o.fail("%s: maxLength not an integer", loc)
 		}
@@ -538,33 +556,33 @@ func (o *Oracle) Eval(loc *Loc, inst Inst, dyn []*Resource) Result {
 		if len(cnt) > 0 {
 			count = c.Add(cnt...)
 		}
-		minC := int64(1)
+		minC := c.Int(1)
 		if v, ok := m["minContains"]; ok && !d7 {
-			if k, ok := intOf(v); ok {
+			if k, ok := intParam("minContains", v); ok {
 				minC = k
 			} else {
 				o.fail("%s: minContains not an integer", loc)
 			}
 		}
-		need(c.Implies(isArr, c.Le(c.Int(minC), count)))
+		need(c.Implies(isArr, c.Le(minC, count)))
 		if v, ok := m["maxContains"]; ok && !d7 {
-			if k, ok := intOf(v); ok {
-				need(c.Implies(isArr, c.Le(count, c.Int(k))))
+			if k, ok := intParam("maxContains", v); ok {
+				need(c.Implies(isArr, c.Le(count, k)))
 			} else {
 				o.fail("%s: maxContains not an integer", loc)
 			}
 		}
 	}
 	if v, ok := m["minItems"]; ok {
-		if k, ok := intOf(v); ok {
-			need(c.Implies(isArr, c.Le(c.Int(k), inst.Len())))
+		if k, ok := intParam("minItems", v); ok {
+			need(c.Implies(isArr, c.Le(k, inst.Len())))
 		} else {
 			o.fail("%s: minItems not an integer", loc)
 		}
 	}
 	if v, ok := m["maxItems"]; ok {
-		if k, ok := intOf(v); ok {
-			need(c.Implies(isArr, c.Le(inst.Len(), c.Int(k))))
+		if k, ok := intParam("maxItems", v); ok {
+			need(c.Implies(isArr, c.Le(inst.Len(), k)))
 		} else {
 			o.fail("%s: maxItems not an integer", loc)
 		}
@@ -636,15 +654,15 @@ func (o *Oracle) Eval(loc *Loc, inst Inst, dyn []*Resource) Result {
 		}
 	}
 	if v, ok := m["minProperties"]; ok {
-		if k, ok := intOf(v); ok {
-			need(c.Implies(isObj, c.Le(c.Int(k), inst.Count())))
+		if k, ok := intParam("minProperties", v); ok {
+			need(c.Implies(isObj, c.Le(k, inst.Count())))
 		} else {
 			o.fail("%s: minProperties not an integer", loc)
 		}
 	}
 	if v, ok := m["maxProperties"]; ok {
-		if k, ok := intOf(v); ok {
-			need(c.Implies(isObj, c.Le(inst.Count(), c.Int(k))))
+		if k, ok := intParam("maxProperties", v); ok {
+			need(c.Implies(isObj, c.Le(inst.Count(), k)))
 		} else {
 			o.fail("%s: maxProperties not an integer", loc)
 		}
